@@ -42,31 +42,44 @@ def magnitude_of(p):
     return None
 
 
-def nonneg(p, depth=0):
+STD_POSITIVE = ("const:core::f64::<impl f64>::EPSILON", "const:core::f64::<impl f64>::MIN_POSITIVE", "const:core::f64::<impl f64>::MAX",
+                "const:core::f64::<impl f64>::INFINITY", "const:std::f64::EPSILON", "const:std::f64::MIN_POSITIVE")
+
+
+def nonneg(p, depth=0, assume=None, _inprog=None):
     """p >= 0 (or NaN) for every value of its atoms: abs/sqrt atoms, non-negative constants, products of those with a
-    positive coefficient, min/max/phi of such values"""
-    if not isinstance(p, Poly) or depth > 8:
+    positive coefficient, min/max/phi of such values; a loop-carried (widen) value is non-negative when every value that
+    flows into it is (induction over the loop: a self-reference counts as the hypothesis). `assume(atom)` may vouch for
+    further atoms (validated configuration fields)."""
+    if not isinstance(p, Poly) or depth > 12:
         return False
     if p.is_zero():
         return True
+    _inprog = _inprog if _inprog is not None else set()
     for m, c in p.t.items():
         if c < 0:
             return False
         for a, e in m:
             if e % 2 == 0:
                 continue
+            if a in STD_POSITIVE or (assume is not None and assume(a)):
+                continue
+            if a in _inprog:
+                continue       # induction hypothesis
             d = DEFS.get(a)
             if d is None:
                 return False
             op, xs = d
             base = op.split(":")[0]
+            args = [x for x in xs if isinstance(x, Poly)]
             if base in ("abs", "sqrt"):
                 continue
-            if base in ("min", "phi", "clamp") and all(nonneg(x, depth + 1) for x in xs if isinstance(x, Poly)):
+            rec = lambda x: nonneg(x, depth + 1, assume, _inprog | {a})
+            if base in ("min", "phi", "clamp", "widen") and args and all(rec(x) for x in args):
                 continue
-            if base == "max" and any(nonneg(x, depth + 1) for x in xs if isinstance(x, Poly)):
+            if base == "max" and any(rec(x) for x in args):
                 continue
-            if base in ("powf", "powi", "inv") and xs and isinstance(xs[0], Poly) and nonneg(xs[0], depth + 1):
+            if base in ("powf", "powi", "inv") and args and rec(args[0]):
                 continue
             return False
     return True
@@ -313,8 +326,54 @@ def r_hmax_clamp(rep, f):
                 probs["step-taken"] = ("the step taken, %r, is neither bounded by max_step nor the landing step xend - x (path variant %s)" % (step, tag), souts[0]["node"])
             else:
                 n_ok += 1
-            # (b) the step proposed for the next iteration on accepting paths
             skeys = [k for k, v in (hk.head or {}).items() if isinstance(v, Poly) and v.single_atom() in hyp]
+            # (a0) base case of the induction: the value the step variable has when the loop is entered
+            for k in skeys:
+                pv = (hk.pre_state or {}).get(k)
+                if not isinstance(pv, Poly) or "base" in probs:
+                    continue
+
+                def hinit_result(p_):
+                    a_ = p_.single_atom() if isinstance(p_, Poly) else None
+                    d_ = DEFS.get(a_) if a_ else None
+                    return bool(d_) and d_[0].startswith("call:methods::hinit")
+
+                def user_first_step(p_):
+                    # |first_step| * direction: the property's domain has first_step <= max_step and <= the span
+                    mm0 = magnitude_of(p_)
+                    inner0 = abs_inner(mm0) if mm0 is not None else abs_inner(p_)
+                    return inner0 is not None and reaches(inner0, lambda a: a.endswith(".first_step")) and inner0.single_atom() is not None
+
+                def tiny_max(p_):
+                    # max[B, MIN_POSITIVE]: a bound raised to the smallest positive number is still the bound for this purpose
+                    a_ = p_.single_atom() if isinstance(p_, Poly) else None
+                    d_ = DEFS.get(a_) if a_ else None
+                    if d_ and d_[0] == "max":
+                        xs_ = [x for x in d_[1] if isinstance(x, Poly)]
+                        rest = [x for x in xs_ if not (x.single_atom() in STD_POSITIVE)]
+                        return len(rest) == 1 and len(xs_) == 2 and (is_bound(rest[0]) or cf.bounded_by(rest[0], is_bound))
+                    return False
+
+                def base_ok(p_, depth=0):
+                    if hinit_result(p_) or landing(p_) or p_ == xend - Poly.atom("x0") or user_first_step(p_):
+                        return True       # R-HINIT-CLAMP bounds hinit's result at every call site
+                    if any(tiny_max(a_) for a_ in min_args(p_)):
+                        return True
+                    mm_ = magnitude_of(p_)
+                    if cf.bounded_by(mm_ if mm_ is not None else p_, lambda q: is_bound(q) or hinit_result(q)) or (mm_ is not None and landing_mag(mm_, xend)):
+                        return True
+                    a_ = p_.single_atom()
+                    d_ = DEFS.get(a_) if a_ else None
+                    if d_ and d_[0] == "phi" and depth < 6:
+                        ins_ = [x for x in d_[1] if isinstance(x, Poly)]
+                        return bool(ins_) and all(base_ok(x, depth + 1) for x in ins_)
+                    return False
+                if base_ok(pv):
+                    n_ok += 1
+                else:
+                    probs["base"] = ("the step `%s` enters the main loop as %s, which is not bounded by max_step (path variant %s): the first step can exceed max_step"
+                                     % (sx.names.get(k, k), repr(pv)[:200], tag), hk.main_loop)
+            # (b) the step proposed for the next iteration on accepting paths
             acc_keys = [k for k, nm in sx.names.items() if nm.endswith(".accepted")]
             for L in hk.latch or []:
                 if acc_keys and L.get(acc_keys[0], sx.lazy.get(acc_keys[0])) == hk.head.get(acc_keys[0], sx.lazy.get(acc_keys[0])):
